@@ -20,7 +20,7 @@ var aggFns = []string{"sum", "min", "max", "avg", "count"}
 var aggFnsExtra = []string{"stddev", "stdvar"}
 
 // durations around the 15 s shortcut, multiples and non-multiples of 15 s, whole and fractional seconds
-var durs = []string{"1s", "2s", "5s", "7s", "10s", "14s", "15s", "16s", "20s", "30s", "45s", "1m", "100s", "2m", "5m", "7m", "15m", "1h", "3600s", "60000ms", "15000ms"}
+var durs = []string{"1s", "1500ms", "2s", "5s", "7s", "10s", "14s", "15s", "16s", "20s", "30s", "45s", "1m", "100s", "2m", "5m", "7m", "15m", "1h", "3600s", "60000ms", "15000ms"}
 var dursMs = []string{"1ms", "500ms", "1500ms", "999ms", "14999ms", "15001ms", "30000ms"}
 
 type mgen struct {
@@ -28,6 +28,13 @@ type mgen struct {
 	ms       bool // millisecond durations
 	simple   bool // small label/value universe for the semantic search
 	streams  []semStream
+}
+
+func (g mgen) cmpPct() int {
+	if g.simple {
+		return 10
+	}
+	return 25
 }
 
 func genGrouping(r *h.Rng, g mgen) string {
@@ -109,7 +116,8 @@ func genRange(r *h.Rng, g mgen) string {
 	if !unwrap && r.Chance(70) {
 		pos = 0 // grouping on a plain range aggregation parses but is ignored by the planner: keep it rarer
 	}
-	sel := genSelector(r, g, !unwrap && (fn == "rate" || fn == "count_over_time") && r.Chance(60))
+	shortcutLike := !unwrap && (fn == "rate" || fn == "count_over_time") && r.Chance(60)
+	sel := genSelector(r, g, shortcutLike)
 	if unwrap {
 		lbl := h.Pick(r, []string{"x", "a", "app", "level", "_entry", "z9"})
 		if g.simple {
@@ -121,11 +129,15 @@ func genRange(r *h.Rng, g mgen) string {
 	if pos&1 != 0 {
 		s += " " + genGrouping(r, g)
 	}
-	s += " (" + sel + " [" + genDur(r, g) + "])"
+	dur := genDur(r, g)
+	if shortcutLike && r.Chance(60) {
+		dur = h.Pick(r, []string{"15s", "30s", "45s", "1m", "5m", "15m", "1h", "15000ms"})
+	}
+	s += " (" + sel + " [" + dur + "])"
 	if pos&2 != 0 {
 		s += " " + genGrouping(r, g)
 	}
-	if r.Chance(25) {
+	if r.Chance(g.cmpPct()) {
 		s += genCmp(r, g)
 	}
 	return s
@@ -145,7 +157,7 @@ func genAgg(r *h.Rng, g mgen) string {
 	if pos&2 != 0 {
 		s += " " + genGrouping(r, g)
 	}
-	if r.Chance(25) {
+	if r.Chance(g.cmpPct()) {
 		s += genCmp(r, g)
 	}
 	return s
@@ -162,8 +174,12 @@ func genMetricQuery(r *h.Rng, g mgen) string {
 	if r.Chance(60) {
 		inner = genAgg(r, g)
 	}
-	s := h.Pick(r, []string{"topk", "bottomk"}) + "(" + fmt.Sprint(r.Intn(6)) + ", " + inner + ")"
-	if r.Chance(25) {
+	k := r.Intn(6)
+	if g.simple && k == 0 && r.Chance(70) {
+		k = r.Range(1, 3)
+	}
+	s := h.Pick(r, []string{"topk", "bottomk"}) + "(" + fmt.Sprint(k) + ", " + inner + ")"
+	if r.Chance(g.cmpPct()) {
 		s += genCmp(r, g)
 	}
 	return s
